@@ -586,9 +586,9 @@ def main():
         # an experiment on another checkout: put the generated tables back to what /repo says, so that nobody else building in
         # lean/ meanwhile sees tables of the scratch tree
         try:
-            import translate
-            with LakeLock():
-                translate.run(Path("/repo"), LEAN / "CsVerif" / "Gen", {})
+            with LakeLock():   # a fresh interpreter: this one has the scratch checkout's modules imported
+                env = {k: v for k, v in os.environ.items() if k != "VERIF_REPO"}
+                subprocess.run([sys.executable, str(VERIF / "tools" / "translate.py"), "/repo"], env=env, capture_output=True, timeout=300)
         except Exception:  # noqa: BLE001
             pass
     print(f"{pid} {args.tier}: theorems={len(lean['theorems'])} proof_ok={lean['ok']} cases={total} "
